@@ -22,7 +22,13 @@ EDGE = 0.05
 
 # central values that coincide with constants the code (or a shortcut in it) may single out
 SPECIAL_VALUES = [10.0, 10.0, 2.0, math.e, 1.0, 3.0, 0.5, 100.0, -1.0, -2.0, 4.0, 90.0, 180.0,
-                  45.0, 60.0, 0.0, 0.0, math.pi, math.pi / 2]
+                  45.0, 60.0, 0.0, 0.0, math.pi, math.pi / 2,
+                  # readings on the scale of physical constants / unit prefixes (derivatives and
+                  # results far from 1 in absolute terms)
+                  6.674e-11, 1.381e-23, 6.626e-34, 2.998e8, 1e-9, 1e9, 1.602e-19, -5e-10]
+SPECIAL_CONSTS = [1e-9, 1e9, 6.674e-11, 1e-6, 1e3, 0.001]
+# results are kept inside this band (far inside binary64, far outside "ordinary" magnitudes)
+VMAX, VMIN = 1e60, 1e-60
 
 
 def ref_un(op, x):
@@ -85,7 +91,7 @@ def ref_bin(op, a, b, b_is_const=False):
 
 
 def gen_case(rng, max_ops=8, max_meas=5, allow_pairs=True, allow_corr=True, ops=None,
-             allow_repeated=False, allow_revalue=False):
+             allow_repeated=False, allow_revalue=False, allow_cast=False, allow_special=True):
     """one formula DAG; returns a JSON-able dict or None when the draw fell out of domain"""
     n_meas = rng.randint(1, max_meas)
     vals, errs = [], []
@@ -94,7 +100,7 @@ def gen_case(rng, max_ops=8, max_meas=5, allow_pairs=True, allow_corr=True, ops=
             rng.uniform(-1, 1)
         if abs(v) < EDGE:
             v = EDGE * 2 if v >= 0 else -EDGE * 2
-        if rng.random() < 0.12:
+        if allow_special and rng.random() < 0.14:
             # readings that coincide with numbers the code may treat specially
             v = rng.choice(SPECIAL_VALUES)
         r = rng.random()
@@ -143,8 +149,9 @@ def gen_case(rng, max_ops=8, max_meas=5, allow_pairs=True, allow_corr=True, ops=
     tries = 0
     used_ops = []
     pairs_made = []
+    casts_made = []
     template = None
-    if rng.random() < 0.10:
+    if allow_special and rng.random() < 0.10:
         # a formula that starts from a special point: a measured logarithm base that equals a
         # familiar constant, or a stationary point of the formula (derivative exactly 0 there)
         k = rng.randrange(n_meas)
@@ -213,6 +220,8 @@ def gen_case(rng, max_ops=8, max_meas=5, allow_pairs=True, allow_corr=True, ops=
             elif form < 0.8 or not allow_pairs:
                 c = rng.choice([2.0, 3.0, -1.0, 0.5, -2.0, 1.5, 10.0, 4.0,
                                 round(rng.uniform(-5, 5), 3)])
+                if allow_special and op in ("mul", "div") and rng.random() < 0.15:
+                    c = rng.choice(SPECIAL_CONSTS)      # a change of unit prefix, a small constant
                 if op == "pow" and rng.random() < 0.6:
                     c = float(rng.choice([2, 3, -1, -2, 4]))
                 if op in ("add", "sub") and rng.random() < 0.2:
@@ -230,8 +239,8 @@ def gen_case(rng, max_ops=8, max_meas=5, allow_pairs=True, allow_corr=True, ops=
             y_const = leaf is not None and leaf[0] == "const" and not swap
             v = ref_bin(op, xr, yr, b_is_const=y_const)
             node = ["bin", op, None, None]
-        if v is None or isinstance(v, complex) or math.isnan(v) or math.isinf(v) or abs(v) > 1e8 \
-                or (abs(v) < 1e-8 and v != 0):
+        if v is None or isinstance(v, complex) or math.isnan(v) or math.isinf(v) or abs(v) > VMAX \
+                or (abs(v) < VMIN and v != 0):
             continue
         if node[0] == "bin":
             if leaf is not None:
@@ -251,6 +260,28 @@ def gen_case(rng, max_ops=8, max_meas=5, allow_pairs=True, allow_corr=True, ops=
         quantity.append(True)
         used_ops.append(op)
         made += 1
+        if allow_cast and rng.random() < 0.07:
+            # the result just made is overridden by hand (value, uncertainty or relative
+            # uncertainty assigned): from then on it is a measurement of its own — a new,
+            # independent variable whose value / uncertainty the harness reads from the library
+            a = len(nodes) - 1
+            how = rng.choice(["value", "value", "error", "rel"])
+            if how == "value":
+                x = ref[a] * (1 + rng.uniform(-0.3, 0.3)) if ref[a] != 0 else rng.uniform(-1, 1)
+                newv = float(x)
+            elif how == "error":
+                x = (abs(ref[a]) or 1.0) * 10 ** rng.uniform(-4, -1)
+                newv = ref[a]
+            else:
+                x = 10 ** rng.uniform(-4, -1)
+                newv = ref[a]
+            vals.append(float(newv))
+            errs.append(0.0)          # placeholder: read from the library object
+            quantity[a] = False       # the overridden object is only ever used through the cast
+            nodes.append(["cast", a, how, bits(float(x)), len(vals) - 1])
+            ref.append(float(newv))
+            quantity.append(True)
+            casts_made.append(how)
     if made == 0:
         return None
     root = len(nodes) - 1
@@ -295,7 +326,7 @@ def gen_case(rng, max_ops=8, max_meas=5, allow_pairs=True, allow_corr=True, ops=
                 if ref_eval_all(probe, trial) is not None:
                     revalue = [k, bits(trial[k])]
                     break
-    return {"template": template, "equal_pairs": len(pairs_made) - len(set(pairs_made)),
+    return {"casts": casts_made, "template": template, "equal_pairs": len(pairs_made) - len(set(pairs_made)),
             "fault": bool(allow_revalue and rng.random() < 0.3), "revalue": revalue, "revise": revise, "nodes": nodes, "root": root, "vals": [bits(v) for v in vals],
             "errs": [bits(e) for e in errs], "rho": rho, "n_meas": n_meas, "raw": raw,
             "ops": used_ops, "ref_value": bits(ref[root])}
@@ -306,6 +337,8 @@ def _referenced(nodes):
     for n in nodes:
         if n[0] in ("un", "deg"):
             out.add(n[2])
+        elif n[0] == "cast":
+            out.add(n[1])
         elif n[0] == "bin":
             out.add(n[2])
             out.add(n[3])
@@ -313,8 +346,9 @@ def _referenced(nodes):
 
 
 def model_nodes(nodes):
-    """for the Lean model a pair operand is a variable"""
-    return [["var", n[1]] if n[0] == "pair" else n for n in nodes]
+    """for the Lean model a pair operand is a variable, and so is a result overridden by hand"""
+    return [["var", n[1]] if n[0] == "pair" else ["var", n[4]] if n[0] == "cast" else n
+            for n in nodes]
 
 
 def depends_nonlinear(case, k):
@@ -323,6 +357,8 @@ def depends_nonlinear(case, k):
 
     def walk(i, crossed):
         n = nodes[i]
+        if n[0] == "cast":
+            return False
         if n[0] in ("var", "pair"):
             return crossed and n[1] == k
         if n[0] == "const":
@@ -338,14 +374,23 @@ PYOPS = {
 }
 
 
-def build_impl(q, case):
-    """build the formula with the real library. Returns (objects per node, measurement objects)"""
+LAST_ARRAY = None     # the MeasurementArray the sources of the last build are entries of (or None)
+
+
+def build_impl(q, case, casts=None):
+    """build the formula with the real library. Returns (objects per node, measurement objects);
+    `casts` (a list) receives (variable index, object) of every result overridden by hand"""
     vals = [unbits(b) for b in case["vals"]]
     errs = [unbits(b) for b in case["errs"]]
     n_meas = case["n_meas"]
     meas = []
     raw = case.get("raw") or {}
-    for i in range(n_meas):
+    global LAST_ARRAY
+    LAST_ARRAY = None
+    if case.get("via_array") and not raw:
+        LAST_ARRAY = q.MeasurementArray(vals[:n_meas], error=errs[:n_meas])
+        meas = [LAST_ARRAY[i] for i in range(n_meas)]
+    for i in range(n_meas if not meas else 0):
         r = raw.get(str(i))
         if r is None:
             meas.append(q.Measurement(vals[i], errs[i]))
@@ -378,6 +423,17 @@ def build_impl(q, case):
                 objs.append(c)
         elif t == "pair":
             objs.append((vals[n[1]], errs[n[1]]))
+        elif t == "cast":
+            obj, x = objs[n[1]], unbits(n[3])
+            if n[2] == "value":
+                obj.value = x
+            elif n[2] == "error":
+                obj.error = x
+            else:
+                obj.relative_error = x
+            objs.append(obj)
+            if casts is not None:
+                casts.append((n[4], obj))
         elif t == "un":
             op, a = n[1], objs[n[2]]
             if op == "neg":
@@ -411,6 +467,8 @@ def ref_eval_all(case, vals):
         t = n[0]
         if t in ("var", "pair"):
             v = vals[n[1]]
+        elif t == "cast":
+            v = vals[n[4]]
         elif t == "const":
             v = unbits(n[1])
         elif t == "un":
@@ -421,7 +479,7 @@ def ref_eval_all(case, vals):
             v = ref_un(inner, out[n[2]] / 180 * math.pi)
         else:
             v = ref_bin(n[1], out[n[2]], out[n[3]], b_is_const=(case["nodes"][n[3]][0] == "const"))
-        if v is None or isinstance(v, complex) or math.isnan(v) or math.isinf(v) or abs(v) > 1e8:
+        if v is None or isinstance(v, complex) or math.isnan(v) or math.isinf(v) or abs(v) > VMAX:
             return None
         out.append(float(v))
     return out
